@@ -93,6 +93,18 @@ theorem fallback_keeps_reports (evs : List String) (hc : ∀ e ∈ evs, e ≠ ca
     simp only [ne_eq, decide_not] at h2 ⊢
     simp [h1, h2]
 
+/-- reports of two phases of a run arrive as the concatenation of what each phase reports: the
+    channel has no memory beyond its sinks (so a report is never held back or re-ordered) -/
+theorem run_append_sinks (ch : Channel) (a b : List String) :
+    (run ch (a ++ b)).err = (run ch a).err ++ (run ch b).err ∧
+    (run ch (a ++ b)).out = (run ch a).out ++ (run ch b).out ∧
+    (run ch (a ++ b)).file = (run ch a).file ++ (run ch b).file := by
+  cases ch with
+  | stdErr => simp [run, fold_stdErr]
+  | stdOut => simp [run, fold_stdOut]
+  | devNull => simp [run, fold_devNull]
+  | file ok => cases ok <;> simp [run, fold_file, fold_badFile]
+
 example : run (.file false) ["Write", "LogFile"] = { err := ["Write", cantOpen, "LogFile", cantOpen] } := by decide
 example : run .stdOut ["Write", "LogFile"] = { out := ["Write", "LogFile"] } := by decide
 
